@@ -23,6 +23,8 @@ ParaShapes ==
     \cup { <<R, x>> : x \in Wrappers \cup Refs }
     \cup { <<x, R>> : x \in Wrappers \cup Refs }
     \cup { << <<w, <<R, b, R>>>> >> : w \in {"a", "ins", "isdt"}, b \in { <<"br">>, <<"tab">> } }   \* break / tab inside a wrapper
+    \cup { <<R, <<"itbx", << <<"p", <<R>>>> >>>>, R>>, << <<"itbx", << <<"p", <<R>>>> >>>>, R>>,     \* a text box anchored inside the paragraph,
+           <<R, <<"itbx", << <<"p", <<R>>>>, <<"p", <<R>>>> >>>> >> }                                 \* followed / preceded by more runs
     \cup (IF Rich THEN { <<x, y>> : x \in Wrappers, y \in Wrappers } ELSE {})
 
 P1 == <<"p", <<R>>>>
